@@ -78,6 +78,14 @@ Definition parse_index (s : bytes) : option N :=
   | _ => usize_from_str s
   end.
 
+(* ---- slice::get(i) for a usize i (no detour through unary numbers: indices go up to 2^64-1) ------------- *)
+Fixpoint get_N {A} (l : list A) (i : N) : option A :=
+  match l with
+  | [] => None
+  | x :: r => if i =? 0 then Some x else get_N r (i - 1)
+  end.
+Definition in_bounds {A} (i : N) (l : list A) : bool := i <? N.of_nat (length l).
+
 (* ---- Map::get (keys of a Map are unique; first match on the entry list) ------------------------------------ *)
 Fixpoint assoc_get (k : bytes) (m : list (bytes * value)) : option value :=
   match m with
@@ -96,7 +104,7 @@ Definition ptr_step (target : value) (token : bytes) : option value :=
   match target with
   | VObj m => assoc_get token m
   | VArr l => match parse_index token with
-              | Some x => nth_error l (N.to_nat x)
+              | Some x => get_N l x
               | None => None
               end
   | _ => None
@@ -152,7 +160,7 @@ Definition ptr_step_mut (target : value) (token : bytes) : option nat :=
   match target with
   | VObj m => assoc_pos token m
   | VArr l => match parse_index token with
-              | Some x => if (N.to_nat x <? length l)%nat then Some (N.to_nat x) else None
+              | Some x => if in_bounds x l then Some (N.to_nat x) else None
               | None => None
               end
   | _ => None
@@ -185,11 +193,11 @@ Definition take_at (root : value) (path : list nat) : option (value * value) :=
 
 (* ---- Index for usize / str (String and &T delegate) ------------------------------------------------------------- *)
 Definition index_into_usize (i : N) (v : value) : option value :=
-  match v with VArr l => nth_error l (N.to_nat i) | _ => None end.
+  match v with VArr l => get_N l i | _ => None end.
 Definition index_into_str (k : bytes) (v : value) : option value :=
   match v with VObj m => assoc_get k m | _ => None end.
 Definition index_into_mut_usize (i : N) (v : value) : option nat :=
-  match v with VArr l => if (N.to_nat i <? length l)%nat then Some (N.to_nat i) else None | _ => None end.
+  match v with VArr l => if in_bounds i l then Some (N.to_nat i) else None | _ => None end.
 Definition index_into_mut_str (k : bytes) (v : value) : option nat :=
   match v with VObj m => assoc_pos k m | _ => None end.
 
@@ -208,7 +216,7 @@ Definition index_str (v : value) (k : bytes) : value :=
 (* ops::IndexMut = index_or_insert: result = (new *self, position of the addressed child); Panic = panic!() *)
 Definition index_or_insert_usize (i : N) (v : value) : res (value * nat) :=
   match v with
-  | VArr l => if (N.to_nat i <? length l)%nat then Ok (v, N.to_nat i) else Panic
+  | VArr l => if in_bounds i l then Ok (v, N.to_nat i) else Panic
   | _ => Panic
   end.
 Definition index_or_insert_str (preserve : bool) (k : bytes) (v : value) : res (value * nat) :=
